@@ -1,10 +1,12 @@
 (* C09 — Data references parse, print and classify consistently.  Property theorems only.
    A well-formed reference is a string BUILT by the printer from parts satisfying wf_parts
    (component-shaped: optional stage index, producer without '/' ':' and without a stage-like
-   prefix, optional file path, method; or a path below a reserved folder). *)
+   prefix, optional file path, method; or a path below a reserved folder; or an absolute path /dir/file whose
+   directory part does not end with a separator).  The same set of references is recognised on STRINGS by the
+   boolean recogniser wf_string of Model.v (C09_wf_string_grammar, C09_wf_string_iff_roundtrip). *)
 From Coq Require Import String Ascii List Bool NArith.
 Import ListNotations.
-Require Import V.Lib.PyStr V.Ref.Model V.Ref.Proofs.
+Require Import V.Lib.PyStr V.Ref.Model V.Ref.Proofs V.Ref.Accept.
 Open Scope string_scope.
 
 (* parse (print parts) = parts, whatever the application dependencies and extra folders *)
@@ -92,6 +94,61 @@ Theorem C09_top_level_folders : forall keys f,
 Proof. exact top_level_first_segments. Qed.
 Print Assumptions C09_top_level_folders.
 
+(* ---------------------------------------------------------------- absolute paths with a directory part *)
+(* /dir/file:method round-trips, under every owner stage and folder list; the guard "the directory does not end
+   with a separator" is exact (Refuted.v: C09_abs_guard_refuted, finding F9a) *)
+Theorem C09_roundtrip_abs : forall p idx ad sf,
+  wf_abs p = true -> parse_full (print_pref p) idx ad sf = Some p.
+Proof. exact roundtrip_abs. Qed.
+Print Assumptions C09_roundtrip_abs.
+
+(* ---------------------------------------------------------------- the grammar as a recogniser of strings *)
+(* wf_string recognises exactly the printed forms of the grammar *)
+Theorem C09_wf_string_grammar : forall s,
+  wf_string s = true <-> exists p, wf_parts p = true /\ print_pref p = s.
+Proof. exact wf_string_iff. Qed.
+Print Assumptions C09_wf_string_grammar.
+
+(* every recognised string parses to parts of the grammar that print back to it *)
+Theorem C09_accepted_roundtrip : forall s ad sf,
+  wf_string s = true ->
+  exists p, parse_full s None ad sf = Some p /\ wf_parts p = true /\ print_pref p = s.
+Proof. exact accepted_roundtrip. Qed.
+Print Assumptions C09_accepted_roundtrip.
+
+(* and the recognised strings are EXACTLY the strings on which print (parse s) = s: for every string at all *)
+Theorem C09_wf_string_iff_roundtrip : forall s ad sf,
+  wf_string s = true <-> option_map print_pref (parse_full s None ad sf) = Some s.
+Proof. exact wf_string_iff_roundtrip. Qed.
+Print Assumptions C09_wf_string_iff_roundtrip.
+
+(* normal form: for EVERY string the parsers accept, under every owner stage / application dependencies / folders,
+   outside the two boundary classes of nf_guard (Refuted.v: C09_normal_form_guard_refuted), the parsed parts are in
+   the grammar and are a fixed point of print-then-parse; the printed parse is the canonical spelling *)
+Theorem C09_normal_form : forall s idx ad sf p,
+  parse_full s idx ad sf = Some p -> nf_guard s = true ->
+  wf_parts p = true /\ parse_full (print_pref p) idx ad sf = Some p.
+Proof. exact normal_form. Qed.
+Print Assumptions C09_normal_form.
+
+Theorem C09_normal_form_string : forall s idx ad sf p,
+  parse_full s idx ad sf = Some p -> nf_guard s = true ->
+  wf_string (print_pref p) = true /\
+  option_map print_pref (parse_full (print_pref p) idx ad sf) = Some (print_pref p).
+Proof. exact normal_form_string. Qed.
+Print Assumptions C09_normal_form_string.
+
+(* ---------------------------------------------------------------- DoWhile / iteration producers  <iteration>#<name> *)
+Theorem C09_same_target_loop : forall k name file meth i idx' ad sf,
+  hasc ":" name = false -> hasc "/" name = false -> hasc ":" meth = false ->
+  (forall f, file = Some f -> hasc ":" f = false) ->
+  in_strs (dec k ++ "#" ++ name) (folders_of ad sf) = false -> var_search (dec k ++ "#" ++ name) = false ->
+  let prod := dec k ++ "#" ++ name in
+  parse_full (print_pref (None, prod, file, meth)) (Some i) ad sf = Some (Some i, prod, file, meth) /\
+  parse_full (print_pref (Some i, prod, file, meth)) idx' ad sf = Some (Some i, prod, file, meth).
+Proof. exact same_target_loop. Qed.
+Print Assumptions C09_same_target_loop.
+
 (* non-vacuity: a stage-prefixed reference with dots, dashes, loop prefix and a nested glob path is in the
    grammar and round-trips; the nested manifest key foo/bar makes foo/bar/f.txt:ref a folder reference while
    gen_2/out.d/f.txt:ref of stage 3 becomes stage3.gen_2/out.d/f.txt:ref *)
@@ -104,5 +161,16 @@ Example C09_nonvacuous :
   top_level_folders ["foo/bar"; "hooks"] = ["foo"; "hooks"] /\
   expand_refs ["foo/bar/f.txt:ref"; "gen_2/out.d/f.txt:ref"; "/abs/x:copy"; "%(v)s/y:ref"] 3 (Some [(3%N, ["gen_2"])])
               ["Appx.application"] (top_level_folders ["foo/bar"; "hooks"])
-    = Some ["foo/bar/f.txt:ref"; "stage3.gen_2/out.d/f.txt:ref"; "/abs/x:copy"; "%(v)s/y:ref"].
+    = Some ["foo/bar/f.txt:ref"; "stage3.gen_2/out.d/f.txt:ref"; "/abs/x:copy"; "%(v)s/y:ref"] /\
+  (* absolute paths, the recogniser, the guard and the loop names *)
+  wf_parts (None, "/opt//data.d/sub", Some "f.txt", "copy") = true /\
+  wf_string "/opt//data.d/sub/f.txt:copy" = true /\ wf_string "stage12.a.b-3#loop/sub/out.d/*.dat:copyout" = true /\
+  wf_string "data/sub/x.txt:ref" = true /\ wf_string "/file:ref" = false /\ wf_string "stage01.A:ref" = false /\
+  wf_string "stage1x.foo:ref" = false /\ wf_string "a:b:c" = false /\
+  nf_guard "stage01.A/x:ref" = true /\ nf_guard "stage1x.foo:ref" = true /\ nf_guard "/a_s//:loopref" = true /\
+  parse_full "stage01.A/x:ref" (Some 4%N) ["Appx"] ["foo"] = Some (Some 1%N, "A", Some "x", "ref") /\
+  print_pref (Some 1%N, "A", Some "x", "ref") = "stage1.A/x:ref" /\
+  in_strs (dec 3 ++ "#" ++ "loop") (folders_of ["Appx"] ["foo"]) = false /\ var_search (dec 3 ++ "#" ++ "loop") = false /\
+  parse_full "3#loop/out:ref" (Some 2%N) ["Appx"] ["foo"] = Some (Some 2%N, "3#loop", Some "out", "ref") /\
+  parse_full "stage2.3#loop/out:ref" None ["Appx"] ["foo"] = Some (Some 2%N, "3#loop", Some "out", "ref").
 Proof. repeat split; vm_compute; reflexivity. Qed.
